@@ -385,9 +385,21 @@ class _Loader(importlib.abc.Loader):
         for k, v in MODULE_SHIMS.items():
             if k in d and getattr(d[k], "__name__", None) == k:
                 d[k] = v
-        # `from hashlib import sha256`
-        if d.get("sha256") is _hashlib.sha256:
-            d["sha256"] = MODULE_SHIMS["hashlib"].sha256
+        # `from hashlib import sha256` (module level, and class attributes bound to it while the module body ran)
+        real = {getattr(_hashlib, n): n for n in ("sha256", "sha384", "sha512", "sha3_256", "blake2b", "sha1") if hasattr(_hashlib, n)}
+        for k, v in list(d.items()):
+            try:
+                if v in real:
+                    d[k] = getattr(MODULE_SHIMS["hashlib"], real[v])
+            except TypeError:
+                continue
+            if isinstance(v, type) and getattr(v, "__module__", None) == module.__name__:
+                for ak, av in list(vars(v).items()):
+                    try:
+                        if av in real:
+                            setattr(v, ak, staticmethod(getattr(MODULE_SHIMS["hashlib"], real[av])))
+                    except TypeError:
+                        pass
 
     def get_source(self, name):
         with open(self.origin) as f:
